@@ -51,3 +51,15 @@ class Quiet(Node):
     def execute(self, **kw):
         Node.execute(self, **kw)
         return None
+
+
+class Idle(Node):
+    """a command that does not read (all of) its inputs while it executes: a choose-one / optional-input command"""
+
+    inputs = dict(Node.inputs)
+    output = params.Parameter()
+
+    def execute(self, **kw):
+        LOG.append(("enter", self.result_name))
+        LOG.append(("exit", self.result_name))
+        return (self.result_name, "idle")
